@@ -810,7 +810,16 @@ class SReal:
         return None
 
     def _tabs(s, o):
-        return s.tab is not None and o.tab is not None and (s.tab.size() * o.tab.size() <= 4096 or not s.tab.atoms or not o.tab.atoms)
+        if s.tab is None or o.tab is None:
+            return False
+        if not s.tab.atoms or not o.tab.atoms:
+            return True
+        # size of the merged table: atoms shared by both sides count once
+        size = s.tab.size()
+        for at in o.tab.atoms:
+            if not any(x[0].eq(at[0]) for x in s.tab.atoms):
+                size *= (at[2] - at[1] + 1)
+        return size <= 20000
 
     def __add__(s, o):
         o = SReal.of(o)
